@@ -40,7 +40,7 @@ impl Property for P {
     fn cases(tier: Tier) -> u64 {
         match tier {
             Tier::Quick => 20_000,
-            Tier::Thorough => 120_000,
+            Tier::Thorough => 600_000,
         }
     }
     fn strategy(_tier: Tier) -> BoxedStrategy<MrCase> {
